@@ -435,6 +435,119 @@ func c20RunEarly(nbytes int, write bool, cfg int) (sig, msg string) {
 	return "", ""
 }
 
+// ---------------------------------------------------------------------------- (e) deadlines
+
+type c20DLCase struct {
+	TLS   bool `json:"tls"`
+	Bytes int  `json:"bytes"` // how much of its first flight the client sends before it goes quiet (-1: all of it)
+	Write bool `json:"write"` // first call of the server application
+}
+
+// c20RunDeadlineOnce: the server application sets a read (and write) deadline that has already
+// passed before its first call; the client sends part or all of its first flight and then stalls
+// without closing. Returns how the first call ended: "timeout", "error:<text>", "ok" or "blocked".
+func c20RunDeadlineOnce(c c20DLCase, direct bool) (string, string) {
+	c20Setup()
+	sim := vfNewStream()
+	sim.monitor = false
+	var srv net.Conn
+	if direct {
+		if c.TLS {
+			srv = tls.Server(sim.ends[1], c20TLSSrv)
+		} else {
+			srv = tlcp.Server(sim.ends[1], c20TLCPSrv)
+		}
+	} else {
+		srv = NewProtocolSwitchServerConn(c20Listener(2), sim.ends[1])
+	}
+	// the client's first flight, taken from a client that is then left alone
+	var cli net.Conn
+	if c.TLS {
+		cli = tls.Client(sim.ends[0], c20TLSCli)
+	} else {
+		cli = tlcp.Client(sim.ends[0], c20TLCPCli)
+	}
+	if c.Bytes != 0 {
+		go func() {
+			switch x := cli.(type) {
+			case *tls.Conn:
+				x.Handshake()
+			case *tlcp.Conn:
+				x.Handshake()
+			}
+		}()
+		// wait for the ClientHello to reach the server end's input
+		for i := 0; i < 20000; i++ {
+			sim.mu.Lock()
+			n := len(sim.ends[1].in)
+			sim.mu.Unlock()
+			if n > 5 {
+				break
+			}
+			time.Sleep(50 * time.Microsecond)
+		}
+		if c.Bytes > 0 {
+			sim.mu.Lock()
+			if len(sim.ends[1].in) > c.Bytes {
+				sim.ends[1].in = sim.ends[1].in[:c.Bytes]
+			}
+			sim.mu.Unlock()
+		}
+	}
+	srv.SetDeadline(time.Now().Add(-time.Second))
+	type res struct {
+		err error
+		p   string
+	}
+	done := make(chan res, 1)
+	go func() {
+		var r res
+		r.p = vfRecover(func() {
+			if c.Write {
+				_, r.err = srv.Write([]byte("hello"))
+			} else {
+				_, r.err = srv.Read(make([]byte, 16))
+			}
+		})
+		done <- r
+	}()
+	defer func() {
+		sim.ends[0].Close()
+		sim.ends[1].Close()
+	}()
+	select {
+	case r := <-done:
+		if r.p != "" {
+			return "panic", r.p
+		}
+		if r.err == nil {
+			return "ok", ""
+		}
+		if ne, ok := r.err.(net.Error); ok && ne.Timeout() {
+			return "timeout", r.err.Error()
+		}
+		var ne net.Error
+		if errors.As(r.err, &ne) && ne.Timeout() {
+			return "timeout", r.err.Error()
+		}
+		return "error", r.err.Error()
+	case <-time.After(5 * time.Second):
+		return "blocked", "the first call had not returned after 5 s although its deadline had passed before it was made"
+	}
+}
+
+func c20RunDeadline(c c20DLCase) (sig, msg string) {
+	d, dm := c20RunDeadlineOnce(c, true)
+	a, am := c20RunDeadlineOnce(c, false)
+	if d == "panic" || a == "panic" {
+		return "panic", dm + am
+	}
+	if d != a {
+		return "adapter-differs-deadline", fmt.Sprintf("deadline already passed before the first call: against the stack directly the call ends with %s (%s), through the adapter with %s (%s)", d, dm, a, am)
+	}
+	return "", ""
+}
+
 func TestVF_C20(t *testing.T) {
 	recA := vfRec("C20", "C20a-routing", "first record headers over all 256 major version bytes x minors {00,01,02,03,04,ff} x configurations {TLCP only, TLS only, both} x first call Read/Write x arrival chunkings; oracle: major 01 => *tlcp.Conn (or 'tlcp config not set'), 03 => *tls.Conn (or 'tls config not set'), anything else => unsupported-protocol error; non-trivial = major not in {1,3} or split header or absent configuration")
 	idx := 0
@@ -522,6 +635,21 @@ func TestVF_C20(t *testing.T) {
 		}
 	}
 	recD.SetExhaustive(true, "30 cases")
+
+	recE := vfRec("C20", "C20e-deadline", "the server application sets a deadline that has already passed before its first call (Read or Write); the client sends 0, 3, 5, 40 bytes or all of its first flight and then stalls without closing; TLCP and TLS clients; oracle: the first call ends the same way (timeout / error / ok) through the adapter as against the stack directly and never blocks; distinct = the case")
+	for _, isTLS := range []bool{false, true} {
+		for _, nb := range []int{0, 3, 5, 40, -1} {
+			for _, w := range []bool{false, true} {
+				c := c20DLCase{TLS: isTLS, Bytes: nb, Write: w}
+				sig, msg := c20RunDeadline(c)
+				if sig != "" {
+					recE.Violation(sig, c, "%s", msg)
+				}
+				recE.Eval(true, c)
+			}
+		}
+	}
+	recE.SetExhaustive(true, "20 cases")
 }
 
 func init() {
@@ -541,6 +669,16 @@ func init() {
 			return err
 		}
 		if sig, msg := c20RunReplay(c); sig != "" {
+			return fmt.Errorf("%s: %s", sig, msg)
+		}
+		return nil
+	})
+	vfRegisterReplay("C20e-deadline", func(raw json.RawMessage) error {
+		var c c20DLCase
+		if err := json.Unmarshal(raw, &c); err != nil {
+			return err
+		}
+		if sig, msg := c20RunDeadline(c); sig != "" {
 			return fmt.Errorf("%s: %s", sig, msg)
 		}
 		return nil
